@@ -5,6 +5,8 @@ pub mod c10;
 pub mod c12;
 pub mod c13;
 pub mod c14;
+pub mod c15;
+pub mod c16;
 pub mod c17;
 pub mod c18;
 pub mod c19;
@@ -34,6 +36,8 @@ pub fn by_id(id: &str) -> Option<Box<dyn Check>> {
         "C13" => Some(Box::new(c13::C13)),
         "C14" => Some(Box::new(c14::C14)),
         "C20" => Some(Box::new(c20::C20)),
+        "C15" => Some(Box::new(c15::C15)),
+        "C16" => Some(Box::new(c16::C16)),
         "C10" => Some(Box::new(c10::C10)),
         "C11" => Some(Box::new(histchecks::HistCheck { prop: "C11" })),
         "C08" => Some(Box::new(histchecks::HistCheck { prop: "C08" })),
